@@ -910,6 +910,8 @@ pub fn exec(op: &str, a: &[&str]) -> Option<String> {
                 "json" => {
                     let j = serde_json::to_string(&e).unwrap();
                     return Some(match super::json_all::<Epoch>(&j) {
+                        // ... and so must a data format that is not human readable (crate::binfmt)
+                        Ok(Some(x)) if crate::binfmt::round_trip(&e).ok() != Some(x) => "entry-points-differ".to_string(),
                         Ok(Some(x)) => format!("ok {}", e2s(x)),
                         Ok(None) => "err".to_string(),
                         Err(()) => "entry-points-differ".to_string(),
